@@ -5,6 +5,7 @@
  * keys: content=<0 gradient|1 noise|2 moving blocks|3 flat|4 extremes|5 screen-like|6 static column + noisy texture + fast squares|7 static noise (the same noisy picture every frame)|8 zooming / rotating block texture|9 flat 0/255 squares inverting every picture> cseed=<int>
  *       bits=<8|10> stride_pad=<int> padfill=<0..255|256 random> scribble=<0|1> (overwrite+free caller buffer after send)
  *       pace=<0 drain at end|1 poll after every send|k>=2 poll every k sends|-1 random polling> pseed=<int> delay_us=<pause between a submission and the poll that follows it>
+ *       qpfly=<0|1 per-picture qp 0,20,0,35,1,63,... in the buffer header>
  *       recon=<0|1> stat=<0|1> decode=<0|1> dec_threads=<int> dec16=<0|1> eos_mode=<0 separate EOS buffer|1 flag on last picture>
  *       teardown_after=<-1 normal | j : stop after j sends without draining>   f<idx>=<val> : configuration cell override
  *       dumprecon=<0|1> dumpdec=<0|1> (write raw planes)  cpu=<hex use_cpu_flags>
@@ -37,7 +38,7 @@ static unsigned rnd(void) { rs ^= rs << 13; rs ^= rs >> 17; rs ^= rs << 5; retur
 
 static int W, Hh, N, content = 2, cseed = 1, bits = 8, stride_pad = 0, padfill = 0, scribble = 0, pace = 1, pseed = 1, delay_us = 0;
 static int twopass = 0;
-static int recon = 1, stat = 0, decode = 1, dec_threads = 1, dec16 = 0, eos_mode = 0, teardown_after = -1, dumprecon = 0, dumpdec = 0;
+static int recon = 1, stat = 0, decode = 1, dec_threads = 1, dec16 = 0, eos_mode = 0, teardown_after = -1, dumprecon = 0, dumpdec = 0, qpfly = 0;
 
 static int sample(int k, int x, int y, int plane) {
     int maxv = (1 << bits) - 1;
@@ -200,7 +201,7 @@ int main(int argc, char **argv) {
         else if (!strcmp(k, "stride_pad")) stride_pad = atoi(v); else if (!strcmp(k, "padfill")) padfill = atoi(v); else if (!strcmp(k, "scribble")) scribble = atoi(v);
         else if (!strcmp(k, "pace")) pace = atoi(v); else if (!strcmp(k, "delay_us")) delay_us = atoi(v); else if (!strcmp(k, "pseed")) pseed = atoi(v); else if (!strcmp(k, "recon")) recon = atoi(v);
         else if (!strcmp(k, "twopass")) twopass = atoi(v); else if (!strcmp(k, "stat")) stat = atoi(v); else if (!strcmp(k, "decode")) decode = atoi(v); else if (!strcmp(k, "dec_threads")) dec_threads = atoi(v);
-        else if (!strcmp(k, "dec16")) dec16 = atoi(v); else if (!strcmp(k, "eos_mode")) eos_mode = atoi(v); else if (!strcmp(k, "teardown_after")) teardown_after = atoi(v);
+        else if (!strcmp(k, "dec16")) dec16 = atoi(v); else if (!strcmp(k, "eos_mode")) eos_mode = atoi(v); else if (!strcmp(k, "qpfly")) qpfly = atoi(v); else if (!strcmp(k, "teardown_after")) teardown_after = atoi(v);
         else if (!strcmp(k, "suffix")) suffix = atoi(v);
         else if (!strcmp(k, "dumprecon")) dumprecon = atoi(v); else if (!strcmp(k, "dumpdec")) dumpdec = atoi(v);
         else if (!strcmp(k, "cpu")) { cpu = strtoull(v, NULL, 16); have_cpu = 1; }
@@ -246,6 +247,8 @@ int main(int argc, char **argv) {
         in.size = sizeof in; in.p_buffer = (uint8_t *)&io; in.n_filled_len = (uint32_t)((size_t)W * Hh * 3 / 2 * (bits > 8 ? 2 : 1));
         in.pts = 1000 + 3 * (int64_t)k; in.pic_type = EB_AV1_INVALID_PICTURE; in.flags = (eos_mode == 1 && k == N - 1) ? EB_BUFFERFLAG_EOS : 0;
         in.p_app_private = (void *)(uintptr_t)(0x1000 + k);
+        /* qpfly=1: a per-picture QP supplied through the buffer header (use_qp_file = 1), values below, inside and at the ends of 0..63 */
+        if (qpfly) { static const uint32_t pat[6] = {0, 20, 0, 35, 1, 63}; in.qp = pat[k % 6]; }
         if (bits == 8 && k < 4096 && stat) {
             uint8_t *c = malloc((size_t)W * Hh * 3 / 2); size_t o = 0;
             for (int y = 0; y < Hh; y++) { memcpy(c + o, io.luma + (size_t)y * io.y_stride, W); o += W; }
